@@ -11,7 +11,9 @@ Correspondence (model of coq/Model/Superop.v evaluated inside Coq on intervals v
 Property-level predicates on the implementation: real / orthogonal / identity / multiplicative / entry formula
 (1e-10), d = 13: closed-form path vs generic expansion vs a direct numpy trace formula; verdicts on maps built
 from Kraus data and Lindblad generators; cached total_propagator_liouville after cache_control_matrix /
-concatenate / extend / remap vs liouville_representation(total_propagator).
+concatenate / extend / remap vs liouville_representation(total_propagator); stacks of maps / generators whose members differ in
+norm by 1e6 and 1e12 (valid members and members with a Kraus weight or rate of -1e-3 / -1e-5): the verdict of every member equals
+the verdict of the member alone and an independent eigenvalue computation from the Kraus / Lindblad data.
 """
 import numpy as np
 import filter_functions as ff
@@ -198,6 +200,85 @@ def choi_predicates(S, b, choi):
     if np.abs(choi - choi.conj().T).max() > 1e-10 * sc:
         bad.append(('choi-hermitian', 'Choi matrix of a real S, Hermitian basis is not Hermitian'))
     return bad
+
+
+# ---------------------------------------------------------------- stacks whose members differ widely in norm
+def kvec(K):
+    """|K>> with component (a, c) -> a*d + c holding K[c, a] (the convention of liouville_to_choi)"""
+    return K.reshape(-1, order='F')
+
+
+def ref_min_eig_kraus(Ks, ws):
+    """independent reference: eigenvalues of sum_k w_k |K_k>><<K_k| (no Liouville / Choi conversion of the package)"""
+    vs = np.array([kvec(K) for K in Ks])
+    ev = np.linalg.eigvalsh(np.einsum('k,ka,kb->ab', np.asarray(ws, dtype=float), vs, vs.conj()))
+    return ev.min(), np.abs(ev).max()
+
+
+def ref_min_eig_lindblad(Ls, gs, d):
+    """independent reference: eigenvalues of sum_k g_k Q|L_k>><<L_k|Q, Q = 1 - |Omega><Omega|"""
+    om = kvec(np.eye(d)) / np.sqrt(d)
+    Q = np.eye(d * d) - np.outer(om, om.conj())
+    vs = np.array([Q @ kvec(L) for L in Ls])
+    ev = np.linalg.eigvalsh(np.einsum('k,ka,kb->ab', np.asarray(gs, dtype=float), vs, vs.conj()))
+    return ev.min(), np.abs(ev).max()
+
+
+SCALES = [1.0, 1e6, 1e12]
+
+
+def stack_norm_case(r, d, b, ccp):
+    """a stack of maps (CP test) or generators (cCP test): valid members scaled by 1, 1e6, 1e12 and slightly
+    invalid members of norm ~1 (negative Kraus weight / negative rate 1e-3 .. 1e-5), in random order.
+    Returns (Ss, expected list of bool, labels)."""
+    members = []
+    if not ccp:
+        for sc in SCALES:
+            k = int(r.integers(1, 4))
+            Us = [gen.rand_unitary(r, d) for _ in range(k)]
+            w = r.uniform(0.1, 1, k)
+            w = w / w.sum() * sc
+            members.append((liou_of_map(kraus_phi(Us, w), b)[0], True, 'valid x%g' % sc))
+        for eps_neg in (1e-3, 1e-5):
+            Ks = [np.eye(d, dtype=complex) / np.sqrt(d)] + orth_traceless(r, d, 2)     # HS-orthonormal
+            w = np.array([1.0, float(r.uniform(0.2, 1)), -eps_neg])
+            lo, hi = ref_min_eig_kraus(Ks, w)
+            members.append((liou_of_map(kraus_phi(Ks, w), b)[0], bool(lo >= -b._atol * max(1.0, hi)), 'weight -%g' % eps_neg))
+    else:
+        for sc in SCALES:
+            k = int(r.integers(1, 3))
+            Ls = [(r.standard_normal((d, d)) + 1j * r.standard_normal((d, d))) / np.sqrt(2 * d) for _ in range(k)]
+            gs = r.uniform(0.2, 1.0, k) * sc
+            H = gen.herm(r, d) * sc / np.sqrt(d)
+            members.append((liou_of_map(lindblad_phi(H, Ls, gs), b)[0], True, 'valid x%g' % sc))
+        for eps_neg in (1e-3, 1e-5):
+            Ls = orth_traceless(r, d, 2)
+            gs = np.array([float(r.uniform(0.2, 1)), -eps_neg])
+            lo, hi = ref_min_eig_lindblad(Ls, gs, d)
+            H = gen.herm(r, d) / np.sqrt(d)
+            members.append((liou_of_map(lindblad_phi(H, Ls, gs), b)[0], bool(lo >= -b._atol * max(1.0, hi)), 'rate -%g' % eps_neg))
+    order = r.permutation(len(members))
+    members = [members[i] for i in order]
+    return np.array([m[0] for m in members]), [m[1] for m in members], [m[2] for m in members]
+
+
+def stack_norm_predicates(Ss, b, expected, labels, ccp):
+    """verdict per member of the stack == verdict of the member alone == independent reference"""
+    fn = so.liouville_is_cCP if ccp else so.liouville_is_CP
+    nm = 'cCP' if ccp else 'CP'
+    bad = []
+    flags, (D, V) = fn(Ss, b, return_eig=True)
+    alone = [bool(fn(S, b)) for S in Ss]
+    for t, (f, a, e, lab) in enumerate(zip(flags, alone, expected, labels)):
+        if bool(f) != a:
+            bad.append(('%s verdict in a stack' % nm, 'member %d (%s): liouville_is_%s = %s in the stack %s but %s alone'
+                        % (t, lab, nm, bool(f), labels, a)))
+        if bool(f) != e:
+            bad.append(('%s verdict in a stack' % nm, 'member %d (%s): liouville_is_%s = %s in the stack %s, reference (from the '
+                        'Kraus / Lindblad data) %s; min eigenvalue %.3g' % (t, lab, nm, bool(f), labels, e, D[t].min())))
+        if a != e:
+            bad.append(('%s verdict alone' % nm, 'member %d (%s) alone: liouville_is_%s = %s, reference %s' % (t, lab, nm, a, e)))
+    return bad, flags, D, V
 
 
 # ---------------------------------------------------------------- pulses: cached total_propagator_liouville
@@ -394,6 +475,25 @@ def coq_verdict(name, d, S, b, atol, flag, D, V, ccp, big):
             f"             (tallyR O {emit.tol_lit(0.5, big)} [{dylit(1.0 if flag else 0.0)}]%Z [{fn} O {d} (dy O {dylit(a)}%Z) Dl])).\n")
 
 
+def coq_verdict_stack(name, d, Ss, b, flags, Ds, Vs, ccp, big):
+    """every member's eigendecomposition is validated against the model's (projected) Choi matrix (tolerance relative to
+    the member's own scale) and the flags of the stacked call are compared with the model's stack verdict"""
+    O = emit.ops(big)
+    fn = 'liouville_is_cCP_stack' if ccp else 'liouville_is_CP_stack'
+    txt = (f"Definition {name} : N*N*N :=\n  let O := {O} in\n"
+           f"  let bs := rmats O {carr_lit(nd(b))}%Z in\n"
+           f"  let Dls := rvecs O {rarr_lit(Ds)}%Z in\n")
+    acc = f"(tallyR O {emit.tol_lit(0.5, big)} {rvec_lit([1.0 if f else 0.0 for f in flags])}%Z ({fn} O {d} (dy O {dylit(0.0)}%Z) Dls))"
+    for t in range(len(Ss)):
+        sc = max(1.0, np.abs(Ds[t]).max())
+        A = f"liouville_to_choi O {d} (rvecs O {rarr_lit(Ss[t])}%Z) bs"
+        if ccp:
+            A = f"projected_choi O {d} ({A})"
+        acc = (f"(tadd (tally_eig O {d * d} {emit.tol_lit(1e-11 * sc, big)} [{A}] [rmat O {carr_lit(Vs[t])}%Z] "
+               f"[nthv Dls {t}])\n   {acc})")
+    return txt + "  " + acc + ".\n"
+
+
 # ---------------------------------------------------------------- run
 def fail(kind, obs, sig, det, inp):
     return dict(kind=kind, observable=obs, signature=sig, detail=det, input=inp)
@@ -563,6 +663,24 @@ def run(ctx):
                              dict(case='stack-verdict', Ss=Ss)))
     evaluations += 1
     tag('map/stack-verdict')
+    # stacks whose members differ in norm by 1e6 / 1e12, valid and slightly invalid members mixed
+    nS = 8 if ctx.thorough else 4
+    for i in range(nS):
+        ccp = bool(i % 2)
+        d = 2 if i < 2 or not ctx.thorough else int(r.choice([2, 3]))
+        b, kind = basis_for(r, d, KINDS[(i // 2) % len(KINDS)])
+        Ss, expected, labels = stack_norm_case(r, d, b, ccp)
+        inp = dict(case='stack-norms', ccp=ccp, d=d, kind=kind, Ss=Ss, basis=nd(b), expected=expected, labels=labels)
+        bad, flags, D, V = stack_norm_predicates(Ss, b, expected, labels, ccp)
+        for obs, det in bad:
+            failures.append(fail('prop', obs, 'c15-verdict-stack', det, inp))
+        if d == 2:
+            defs.append(('s%d' % i, lambda big, i=i, d=d, Ss=Ss, b=b, flags=flags, D=D, V=V, ccp=ccp:
+                         coq_verdict_stack('s%d' % i, d, Ss, b, flags, D, V, ccp, big)))
+            meta.append(('liouville_is_%s on a stack vs model (per-member eigendecompositions validated)' % ('cCP' if ccp else 'CP'),
+                         'c15-corr-stack', inp))
+        tag('stack-norms/%s/d%d/%s' % ('cCP' if ccp else 'CP', d, kind))
+        evaluations += 1
     # ---- (D) cached total_propagator_liouville of pulses
     for i in range(nP):
         which = ['cache_control_matrix', 'concatenate', 'extend', 'remap'][i % 4]
@@ -653,6 +771,10 @@ def replay(ctx, rep):
         r.bit_generator.state = st
         bad, _, _ = pulse_case(r, inp['which'])
         return (not bad), ('replay reproduces: %s' % bad if bad else 'replay: predicates hold on this input')
+    if case == 'stack-norms':
+        b = ff.Basis(_arr(inp['basis']))
+        bad = stack_norm_predicates(_arr(inp['Ss']).real, b, list(inp['expected']), list(inp['labels']), bool(inp['ccp']))[0]
+        return (not bad), ('replay reproduces: %s' % bad[:2] if bad else 'replay: stack verdicts agree with the members alone and the reference')
     if case == 'stack-verdict':
         cps = so.liouville_is_CP(_arr(inp['Ss']).real, ff.Basis.pauli(1))
         ok = list(map(bool, cps)) == [True, False, True]
@@ -701,6 +823,17 @@ def search(ctx, broken):
             if bad:
                 out.append(dict(fail('prop', bad[0][0], 'c15-verdict-wrong' if 'verdict' in bad[0][0] else 'c15-' + bad[0][0],
                                      bad[0][1], inp), broken_obligations=broken))
+                break
+        if i % 7 == 0:
+            ccp = bool((i // 7) % 2)
+            d2 = int(r.choice([2, 3]))
+            b2, kind2 = basis_for(r, d2, KINDS[i % 4])
+            Ss, expected, labels = stack_norm_case(r, d2, b2, ccp)
+            bad = stack_norm_predicates(Ss, b2, expected, labels, ccp)[0]
+            if bad:
+                out.append(dict(fail('prop', bad[0][0], 'c15-verdict-stack', bad[0][1],
+                                     dict(case='stack-norms', ccp=ccp, d=d2, kind=kind2, Ss=Ss, basis=nd(b2),
+                                          expected=expected, labels=labels)), broken_obligations=broken))
                 break
         if i % 5 == 0:
             which = ['cache_control_matrix', 'concatenate', 'extend', 'remap'][(i // 5) % 4]
